@@ -22,12 +22,15 @@ def build_types(spec, tag):
             ns = {}
             for j, f in enumerate(d["fields"]):
                 ns["f%d" % j] = T[f]
-            t = type("K%s_%d" % (tag, i), (xo.Struct,), ns)
+            # "same_name_as": another class of the same __name__ (the documented override: the last one listed is used)
+            t = type("K%s_%d" % (tag, d.get("same_name_as", i)), (xo.Struct,), ns)
         elif k == "array":
             shape = d["shape"]
             key = tuple(None if s is None else s for s in shape)
             idx = tuple(slice(None) if s is None else s for s in shape)
             t = T[d["item"]][idx if len(idx) > 1 else idx[0]]
+            if d.get("named"):       # class Cloud(Point[:]): a named array class (may carry _depends_on)
+                t = type("A%s_%d" % (tag, i), (t,), {})
         elif k == "ref":
             t = xo.Ref[T[d["target"]]]
         elif k == "union":
@@ -89,6 +92,7 @@ def gen_spec(rng, n):
             if dup:
                 continue
             spec.append({"kind": "array", "item": item, "shape": shape}); compounds.append(i)
+            if rng.random() < 0.3: spec[-1]["named"] = True
         elif r < 0.88:
             tgt = rng.choice(compounds)
             if any(d["kind"] == "ref" and d["target"] == tgt for d in spec):
@@ -105,6 +109,14 @@ def gen_spec(rng, n):
             cands = [j for j in structs if j != i]
             if cands:
                 spec[i]["depends"] = rng.sample(cands, min(len(cands), rng.choice([1, 1, 2])))
+    for i, d in enumerate(spec):
+        # declared dependencies are honoured on every class kind
+        if d["kind"] == "union" and structs and rng.random() < 0.25:
+            cands = [j for j in structs if j not in d["members"]]
+            if cands: d["depends"] = [rng.choice(cands)]
+        if d["kind"] == "array" and d.get("named") and structs and rng.random() < 0.5:
+            cands = [j for j in structs if j != d["item"]]
+            if cands: d["depends"] = [rng.choice(cands)]
     for i, d in enumerate(spec):
         if d["kind"] == "union" and structs and rng.random() < 0.3:
             cands = [j for j in structs if j not in d["members"]]   # a union lists each member type once
@@ -171,6 +183,16 @@ def main():
             if rng.random() < 0.15:
                 roots.insert(rng.randrange(len(roots) + 1), rng.choice(allc))
                 roots = list(dict.fromkeys(roots))
+            # the documented override: a second root class with the NAME of an earlier root; it has the first one's
+            # fields plus one more compound dependency; it is listed later, so it is the one that counts
+            sroots = [r for r in roots if spec[r]["kind"] == "struct" and not spec[r].get("depends")]
+            comp = [j for j, d in enumerate(spec) if d["kind"] in ("struct", "array", "union")]
+            if sroots and comp and rng.random() < 0.2:
+                r1 = rng.choice(sroots)
+                extra = rng.choice(comp)
+                if extra != r1 and r1 not in edges_of(spec).get(extra, []):
+                    spec.append({"kind": "struct", "fields": list(spec[r1]["fields"]) + [extra], "same_name_as": r1})
+                    roots.append(len(spec) - 1)
             c = {"spec": spec, "roots": roots}
             out.append({"spec": spec, "roots": roots, "res": run_case(c, do_build=(i < nb))})
     print(json.dumps({"cases": out}))
